@@ -48,7 +48,10 @@ type migrateBuilder struct {
 	depModuleKeys                    []bufmodule.ModuleKey
 	pathToMigratedBufGenYAMLFile     map[string]bufconfig.BufGenYAMLFile
 	moduleFullNameStringToParentPath map[string]string
-	pathsToDelete                    map[string]struct{}
+	// Names of workspace modules that were dropped because the module had multiple roots.
+	// The roots are still in the workspace, so a dependency on this name is not a dependency.
+	droppedModuleFullNameStrings map[string]struct{}
+	pathsToDelete                map[string]struct{}
 }
 
 func newMigrateBuilder(
@@ -67,6 +70,7 @@ func newMigrateBuilder(
 		addedModuleDirPaths:              make(map[string]struct{}),
 		pathToMigratedBufGenYAMLFile:     make(map[string]bufconfig.BufGenYAMLFile),
 		moduleFullNameStringToParentPath: make(map[string]string),
+		droppedModuleFullNameStrings:     make(map[string]struct{}),
 		pathsToDelete:                    make(map[string]struct{}),
 	}
 }
@@ -251,6 +255,7 @@ func (m *migrateBuilder) addModule(ctx context.Context, moduleDirPath string) (r
 				bufYAMLFilePath,
 				moduleFullName.String(),
 			))
+			m.droppedModuleFullNameStrings[moduleFullName.String()] = struct{}{}
 			moduleFullName = nil
 		}
 		// Each root in buf.yaml v1beta1 should become its own module config in v2,
@@ -379,6 +384,16 @@ func (m *migrateBuilder) addModule(ctx context.Context, moduleDirPath string) (r
 		return syserror.Newf("unrecognized version: %v", bufLockFile.FileVersion())
 	}
 	return nil
+}
+
+// isWorkspaceModuleFullNameString returns true if the name is the name of a module in the
+// workspace being migrated, including names dropped from multi-root modules.
+func (m *migrateBuilder) isWorkspaceModuleFullNameString(moduleFullNameString string) bool {
+	if _, ok := m.moduleFullNameStringToParentPath[moduleFullNameString]; ok {
+		return true
+	}
+	_, ok := m.droppedModuleFullNameStrings[moduleFullNameString]
+	return ok
 }
 
 func (m *migrateBuilder) appendModuleConfig(moduleConfig bufconfig.ModuleConfig, parentPath string) error {
